@@ -166,6 +166,9 @@ func loadCorpus() *corpus {
 			case strings.HasPrefix(rel, "tls/testdata/"):
 				c.TLSMsgs = append(c.TLSMsgs, parseTLSFlows(data)...)
 				continue
+			case strings.HasSuffix(base, ".crl") && len(data) > 2 && data[0] == 0x30:
+				c.CRLs = append(c.CRLs, data)
+				continue
 			case strings.HasSuffix(base, ".sst"):
 				c.SSTs = append(c.SSTs, data)
 				continue
@@ -187,7 +190,7 @@ func loadCorpus() *corpus {
 			} else if !isGo && len(data) > 2 && data[0] == 0x30 {
 				c.addRawDER(data)
 			}
-			if isGo {
+			if isGo && (strings.HasSuffix(p, "_test.go") || inTestdata) && bytes.Contains(data, []byte(`"30`)) {
 				for _, m := range reHexLit.FindAllSubmatch(data, -1) {
 					if len(m[1])%2 != 0 {
 						continue
